@@ -291,7 +291,12 @@ def parse_query(zc, uni, data, now, scope=None):
             kept = qh._answer_question(q, s.strategy_type, s.types, s.services, DNSRRSet(list(ans)))
             cands = [(uni.id(r), int(r.ttl), sorted(uni.id(a) for a in adds), r not in kept) for r, adds in ans.items()]
             items.append((bool(q.unique), cands))
-    known = [(uni.id(r), int(r.ttl)) for r in m.answers()]
+    # known answers are numbered as the responder compares them with its own records: a tree with the C03 repair of scoped known
+    # answers (`_without_scope_id` in query_handler.py) drops the scope id an IPv6 socket stamps on AAAA records first; the
+    # unrepaired tree compares them as parsed (the harness follows whichever tree it runs on)
+    import zeroconf._handlers.query_handler as _qh
+    _strip = getattr(_qh, "_without_scope_id", None)
+    known = [(uni.id(_strip(r) if _strip else r), int(r.ttl)) for r in m.answers()]
     pkt = dict(now=int(now), id=m.id, flags=m.flags, num_auth=m._num_authorities, nq=len(m._questions),
                q0type=m._questions[0].type if m._questions else 0, items=items, known=known,
                questions=[(q.name, q.type, q.class_, bool(q.unique)) for q in m._questions])
